@@ -895,6 +895,67 @@ pub enum SE2 {
     },
 }
 
+// ---- family ZK: every library container position with its own leaf, manifest-free ---------------
+
+#[derive(TS)]
+#[ts(export_to = p(112), rename = n(112))]
+pub struct ZK0 {
+    pub map_key: HashMap<ZV0, ZL1>,
+    pub btree: std::collections::BTreeMap<ZL7, ZX0>,
+    pub tup10: (ZL0, ZL2, ZL3, ZL4, ZL5, ZL6, ZV1, ZV2, ZX1, ZX2),
+    pub weak: std::sync::Weak<ZX3>,
+    pub cell: std::cell::Cell<ZX4>,
+    pub rw: std::sync::RwLock<ZW0>,
+    pub reference: &'static ZW1,
+    pub boxed_slice: Box<[ZW2]>,
+    pub nested: Option<Result<ZW3, ZW4>>,
+    pub single: ((SL0,), [SL1; 1]),
+    pub set_of_tuples: std::collections::HashSet<(SL2, Option<SL3>)>,
+    pub range: std::ops::RangeInclusive<SL4>,
+    pub phantom: std::marker::PhantomData<SL5>,
+}
+
+// ---- family ZN: named-field attribute combinations, manifest-free ------------------------------
+
+#[derive(TS)]
+#[ts(export_to = p(113), rename = n(113), tag = "type")]
+pub struct ZN0 {
+    #[ts(flatten)]
+    pub flat_generic: ZG0<ZL0>,
+    #[ts(optional, as = "Option<ZL1>")]
+    pub opt_as: Option<i32>,
+    #[ts(inline)]
+    pub inl_opt: Option<ZW0>,
+    #[ts(inline)]
+    pub inl_vec: Vec<ZW1>,
+    #[ts(inline)]
+    pub inl_box: Box<ZW2>,
+    #[ts(flatten)]
+    pub flat_enum: ZN1,
+    #[ts(optional = nullable)]
+    pub opt_null: Option<ZL2>,
+    #[ts(rename = "renamed", as = "ZL3")]
+    pub ren: i32,
+}
+
+#[derive(TS)]
+#[ts(export_to = p(114), rename = n(114), untagged)]
+pub enum ZN1 {
+    A { a: ZV0 },
+    B { b: Option<ZV1> },
+}
+
+#[derive(TS)]
+#[ts(export_to = p(115), rename = n(115), optional_fields)]
+pub struct ZN2 {
+    pub a: Option<ZL4>,
+    pub b: ZL5,
+    #[ts(flatten)]
+    pub c: ZW3,
+    #[ts(inline)]
+    pub d: ZN1,
+}
+
 // ---- family L: literal attributes, as in ordinary user code -------------------------------
 
 #[derive(TS)]
@@ -927,7 +988,7 @@ pub struct L3 {
 pub struct L4(pub String);
 
 /// Number of definitions that read the table (`p(i)` / `n(i)`).
-pub const DER_DEFS: usize = 112;
+pub const DER_DEFS: usize = 116;
 
 #[derive(Clone, Copy, Debug)]
 pub enum Place {
@@ -1092,7 +1153,11 @@ pub const SW0_: usize = 129;
 pub const SE0_: usize = 130;
 pub const SE1_: usize = 131;
 pub const SE2_: usize = 132;
-pub const DER_HANDLES: usize = 133;
+pub const ZK0_: usize = 133;
+pub const ZN0_: usize = 134;
+pub const ZN1_: usize = 135;
+pub const ZN2_: usize = 136;
+pub const DER_HANDLES: usize = 137;
 
 use Place::{Lit, RenameOnly, Table as Tb};
 
@@ -1272,6 +1337,10 @@ pub const MANIFEST: [DerInfo; DER_HANDLES] = [
     DerInfo { label: "SE0", place: Tb(109), import_refs: &[], reach_refs: &[] },
     DerInfo { label: "SE1", place: Tb(110), import_refs: &[], reach_refs: &[] },
     DerInfo { label: "SE2", place: Tb(111), import_refs: &[], reach_refs: &[] },
+    DerInfo { label: "ZK0", place: Tb(112), import_refs: &[], reach_refs: &[] },
+    DerInfo { label: "ZN0", place: Tb(113), import_refs: &[], reach_refs: &[] },
+    DerInfo { label: "ZN1", place: Tb(114), import_refs: &[], reach_refs: &[] },
+    DerInfo { label: "ZN2", place: Tb(115), import_refs: &[], reach_refs: &[] },
 ];
 
 pub fn der_handle(h: usize) -> Handle {
@@ -1410,6 +1479,10 @@ pub fn der_handle(h: usize) -> Handle {
         SE0_ => handle::<SE0>(l),
         SE1_ => handle::<SE1>(l),
         SE2_ => handle::<SE2>(l),
+        ZK0_ => handle::<ZK0>(l),
+        ZN0_ => handle::<ZN0>(l),
+        ZN1_ => handle::<ZN1>(l),
+        ZN2_ => handle::<ZN2>(l),
         _ => panic!("no such derived handle {h}"),
     }
 }
